@@ -17,7 +17,9 @@ package main
 import (
 	"bytes"
 	"encoding/json"
+	"encoding/xml"
 	"fmt"
+	"io"
 	"math"
 	"os"
 	"path/filepath"
@@ -524,6 +526,28 @@ func c16IndentOnlyWhitespace(ind, cmp []gtok) (ok bool, where string, glued int)
 	return true, "", glued
 }
 
+// c16RawTags: the bytes of every start / end tag of the document, in order, as the tokenizer delimits them
+// (nil when the document does not tokenize).
+func c16RawTags(doc []byte) []string {
+	d := xml.NewDecoder(bytes.NewReader(doc))
+	out := []string{}
+	for {
+		off0 := d.InputOffset()
+		t, err := d.RawToken()
+		if err == io.EOF {
+			return out
+		}
+		if err != nil {
+			return nil
+		}
+		off1 := d.InputOffset()
+		switch t.(type) {
+		case xml.StartElement, xml.EndElement:
+			out = append(out, string(doc[off0:off1]))
+		}
+	}
+}
+
 // c16AscendingOrder checks the output token stream: attribute names strictly ascending in every start
 // tag, sibling element names ascending under every parent.
 func c16AscendingOrder(ts []gtok) (attrBad, childBad string) {
@@ -926,6 +950,25 @@ func c16MapCase(c *c16Ctx, r *Rng, o xOpts, m map[string]interface{}, root strin
 			if !ok {
 				c.violate("xmlindent-only-whitespace", "XmlIndent differs from Xml in more than inter-element whitespace", fns[fi].name,
 					where+" in "+c16Clip(string(first[fi].B), 400), c16Clip(string(xmlOut.B), 400))
+			} else if ti, tc := c16RawTags(first[fi].B), c16RawTags(xmlOut.B); ti != nil && tc != nil {
+				// byte level: every tag is written exactly as in the compact encoding (the tokenizer would not see
+				// whitespace put inside a tag)
+				run.sum.OracleEvals++
+				bad := ""
+				if len(ti) != len(tc) {
+					bad = fmt.Sprintf("%d tags against %d", len(ti), len(tc))
+				} else {
+					for k := range ti {
+						if ti[k] != tc[k] {
+							bad = fmt.Sprintf("tag %d is written %q, in the compact encoding %q", k, ti[k], tc[k])
+							break
+						}
+					}
+				}
+				if bad != "" {
+					c.violate("xmlindent-only-whitespace", "XmlIndent differs from Xml inside a tag (not only in inter-element whitespace)", fns[fi].name,
+						bad+" in "+c16Clip(string(first[fi].B), 400), c16Clip(string(xmlOut.B), 400))
+				}
 			}
 		}
 	}
@@ -1217,6 +1260,23 @@ func c16SeqCase(c *c16Ctx, r *Rng, o xOpts, doc string) {
 				if !ok {
 					c.violate("seq-xmlindent-only-whitespace", "MapSeq.XmlIndent differs from MapSeq.Xml in more than inter-element whitespace", fns[1].name,
 						where+" in "+c16Clip(string(first[1].B), 400), c16Clip(string(first[0].B), 400))
+				} else if ti, tc := c16RawTags(first[1].B), c16RawTags(first[0].B); ti != nil && tc != nil {
+					run.sum.OracleEvals++
+					bad := ""
+					if len(ti) != len(tc) {
+						bad = fmt.Sprintf("%d tags against %d", len(ti), len(tc))
+					} else {
+						for k := range ti {
+							if ti[k] != tc[k] {
+								bad = fmt.Sprintf("tag %d is written %q, in the compact encoding %q", k, ti[k], tc[k])
+								break
+							}
+						}
+					}
+					if bad != "" {
+						c.violate("seq-xmlindent-only-whitespace", "MapSeq.XmlIndent differs from MapSeq.Xml inside a tag (not only in inter-element whitespace)", fns[1].name,
+							bad+" in "+c16Clip(string(first[1].B), 400), c16Clip(string(first[0].B), 400))
+					}
 				}
 			}
 		} else if !o.Chk {
